@@ -31,11 +31,11 @@ CLAIMS = {
  "C11": ("Frame conditions (assigns clauses) of the functions of the resolve walk are checked store by store: apart from freshly allocated objects, the result map of the call and the declared caches, nothing is written.",
          "Field.ConType/Field.Args writes are declared at array granularity; the sortArgs write to Field.Args is a recorded known finding; the relational sentence (same response as a fresh parse) is a consequence of the frame, not proved as a two-run relation",
          "4 C11"),
- "C13": ("Validation rules are proved in both directions (error iff the rule is broken) for: names (blank, non-name character, leading digit, reserved prefix; byte-exact against the 256-entry character table), type names, IsInputType/IsOutputType against the recursive definition of input/output type, IsLocation, Locate per element kind, typeEqual against structural equality, uniqueness in the four name-indexed member lists (add refuses exactly the duplicates and never replaces an entry), Union.Validate, Base.validateFieldDefs / Interface.Validate (field and argument names, output type in field position, input type in argument position, non-empty), Input.Validate.",
+ "C13": ("Validation rules are proved in both directions (error iff the rule is broken) for: names (blank, non-name character, leading digit, reserved prefix; byte-exact against the 256-entry character table), type names, IsInputType/IsOutputType against the recursive definition of input/output type, IsLocation, Locate per element kind, typeEqual against structural equality, uniqueness in the four name-indexed member lists (add refuses exactly the duplicates and never replaces an entry), Union.Validate, Base.validateFieldDefs / Interface.Validate (field and argument names, output type in field position, input type in argument position, non-empty), Input.Validate; Root.validate visits every registered type (core ones included) and returns an error iff some type's Validate reports one (loop invariant over the type list against the interface contract Type.Validate).",
          "Object.Validate interface conformance, Enum/Schema/Directive.Validate, validateDirUse, addTypes and ReplaceRefs are not yet under contract; 'names the offender' is not decided (error messages are opaque fmt.Errorf results); Locate(*Arg) is a recorded known finding",
          "4 C13"),
- "C17": ("Resolve of Scalar, Input, List, NonNull, Arg, InputField, FieldDef, EnumValue, Directive and Object is proved against the introspection table of the statement, one postcondition per meta-field (kind, name, description, fields with and without includeDeprecated, interfaces, ofType, args, type, isDeprecated, deprecationReason, locations, null for the inapplicable fields); Nth/Len of the five list views; GetDirective, isDeprecated, getBoolArg.",
-         "Resolve of Interface, Union, Enum, Schema/Root and the __type/__schema entry points are not yet under contract; the completeness direction of Object.fields without deprecated ones is not claimed; wrapper name (\"[T]\", \"T!\") is a recorded known finding pinned by the suite",
+ "C17": ("Resolve of Scalar, Input, List, NonNull, Arg, InputField, FieldDef, EnumValue, Directive, Object, Interface, Union, Enum and Root (the __schema object) is proved against the introspection table of the statement, one postcondition per meta-field (kind, name, description, fields with and without includeDeprecated, interfaces, ofType, args, type, isDeprecated, deprecationReason, locations, null for the inapplicable fields); Nth/Len of the five list views; GetDirective, isDeprecated, getBoolArg; Interface.possibleTypes is proved sound and complete (exactly the registered object types that list the interface, each once) with nested-loop invariants; enumValues without includeDeprecated lists only non-deprecated values.",
+         "the __type/__schema entry points in resolveField and Schema.Resolve are not yet under contract; the completeness direction of the deprecated filter (every current field/value is listed) is not claimed; Interface.fields without includeDeprecated returns deprecated fields too (recorded known finding); wrapper name (\"[T]\", \"T!\") is a recorded known finding pinned by the suite",
          "4 C17"),
  "C19": ("Registry contracts proved for all registry contents and all lengths: subscribe appends exactly the new subscription; Unsubscribe(id) leaves no matching subscriber, keeps every non-matching one, returns the number matched and calls each removed subscriber's clean-up exactly once and nobody else's; AddEvent sends exactly one message to every matching subscriber and none to the others, returns the number matched, removes exactly the subscribers whose Send failed (re-checking identity) and cleans each of them up exactly once. Ghost counters per subscriber (#send, #sendfail, #unsub) carry the call history; loop invariants over the in-place deletion idiom.",
          "Match is assumed a pure function of (subscriber, id) during one call; a subscriber is assumed registered at most once; relative order of the kept subscribers and delivery in registration order are not stated; the value sent is the result of resolve(event, subscription field) by construction of the loop body, not a separate postcondition; the all-histories statement follows from these per-operation contracts by induction on the history (not re-proved)",
